@@ -279,6 +279,13 @@ def styled_oracle(case, impl):
     if not wrapped(vs, vo, True):
         return ("visible text is not the input's with runs of inter-word whitespace replaced by ONE line break + "
                 "whitespace indent (up to the final trim_end): %r -> %r (width %d)" % (s, o, W))
+    if "\x1b" not in s and not any(is_control(c) and c != "\n" for c in s):
+        # a styled string without any escape sequence is plain text: the width bound of the property applies
+        for line in o.split("\n"):
+            t = line.rstrip(WS_STR)
+            if text_width(t) > W and " " in t.lstrip(WS_STR):
+                return ("line %r of the output is %d columns wide (> %d) and holds more than one word: %r -> %r"
+                        % (line, text_width(t), W, s, o))
     if not any(is_control(c) for c in vs):
         if int(r["sdw"][0]) != text_width(vs):
             return ("display width of styled %r is %s, its visible characters sum to %d (escape sequences must "
@@ -360,6 +367,14 @@ def gen_styled(tier, rng):
     for _ in range(nrand):
         s = random_text(rng, True)
         pairs.append((s, random_width(rng, s)))
+    # plain multi-line texts through StyledStr::wrap (about / help texts are usually just that): a short first
+    # line followed by longer ones, widths around the length of the first line
+    for _ in range(nrand // 4):
+        first = " ".join(rng.choice(RANDOM_WORDS[:12]) for _ in range(rng.choice([1, 2, 3])))
+        rest = "\n".join(" ".join(rng.choice(RANDOM_WORDS[:12]) for _ in range(rng.choice([4, 8, 14])))
+                         for _ in range(rng.choice([1, 2])))
+        t = first + "\n" + rest
+        pairs.append((t, rng.choice([len(first), len(first) + 1, len(first) + 5, 15, 40, max(len(first) - 1, 0)])))
     texts = sorted({s for s, _ in pairs})
     segs = dict(zip(texts, probe_segments(texts)))
     return ["(styled %s %d %s %s)" % (hexs(s), w, width_table(s), segs[s]) for s, w in pairs]
